@@ -99,7 +99,14 @@ def _results(mf):
 def check(case):
     from fairlearn.metrics import MetricFrame
 
-    mf = MetricFrame(**_kwargs(case))
+    from vf import gen
+
+    g0 = gen.global_state()
+    kw1 = _kwargs(case)
+    snap = gen.snapshot(kw1)
+    mf = MetricFrame(**kw1)
+    M.need(gen.global_state() == g0, "MetricFrame(random_state=<int>) changed process-global state (numpy global RNG / error state / warnings filters)")
+    M.need(gen.unchanged(snap, kw1), "MetricFrame modified one of its arguments in place")
     mf2 = MetricFrame(**_kwargs(case))
     qs = case["quantiles"]
     n = case["n"]
